@@ -20,6 +20,17 @@
 //         projection set-up during run() in program order (x / y = CompoundConstraint::updatePosition(dim), the virtual that
 //         moveTo() and applyForcesAndConstraints() both call once after their solve), observed by a constraint-free probe
 //         compound constraint appended to the layout's constraint list just before run().
+// seq:    family "constraint objects re-used across makeFeasible() calls".  The layout part of the line is followed by
+//           nops op*   with op = 1 (makeFeasible() on the current layout object) | 2 xa ya (run(xa, ya) on it)
+//                               | 3 (destroy the layout object, build a fresh ConstrainedFDLayout over the SAME rectangles and the
+//                                    SAME CompoundConstraint objects) | 4 k (node cx cy)*k (Rectangle::moveCentre, absolute, k/16)
+//         One set of constraint objects lives through the whole sequence.  Every user constraint is an observer subclass
+//         Obs<T> of the real class T: the four virtuals of the sub-constraint cursor protocol log and then call T's own method.
+//         Prints one line  "SEQ ncalls (CALL opindex M|R R <rects> UX.. UY.. SUB ncc (combine n cur0 cur1 flags log)*ncc [EXC text])*":
+//         the state after EVERY call (the unsatisfiable lists are emptied before each call), and per constraint object
+//         shouldCombineSubConstraints(), _subConstraintInfo.size(), the cursor before / after, the `satisfied` flags and the
+//         events I (markAllSubConstraintsAsInactive) R0/R1 (subConstraintsRemaining -> result) G<k>
+//         (getCurrSubConstraintAlternatives, cursor at k) M<k>:<0|1> (markCurrSubConstraintAsActive(b), cursor at k).
 #include <cstddef>
 #include <cfloat>
 #include <cstdio>
@@ -28,6 +39,7 @@
 #include <cmath>
 #include <vector>
 #include <string>
+#include <utility>
 #include <set>
 #include <iostream>
 #include <sstream>
@@ -61,6 +73,8 @@ struct Case {
     vector<CCSpec> specs;
     vector<std::pair<unsigned, unsigned> > es; double ideal; int mode, overlap, neighbour;
     bool hasLayout;
+    struct Op { int code; bool xa, ya; vector<long> mv; };
+    vector<Op> ops;
 };
 
 static void parseCase(Toks &tk, Case &c)
@@ -90,20 +104,59 @@ static void parseCase(Toks &tk, Case &c)
         int ne = tk.next();
         for (int i = 0; i < ne; i++) { unsigned u = tk.next(), v = tk.next(); c.es.push_back(std::make_pair(u, v)); }
         c.ideal = tk.q(); c.mode = tk.next(); c.overlap = tk.next(); c.neighbour = tk.next();
+        if (tk.more()) {
+            int nops = tk.next();
+            for (int i = 0; i < nops; i++) {
+                Case::Op o; o.code = tk.next(); o.xa = o.ya = true;
+                if (o.code == 2) { o.xa = tk.next() != 0; o.ya = tk.next() != 0; }
+                else if (o.code == 4) { int k = tk.next(); for (int j = 0; j < 3 * k; j++) o.mv.push_back(tk.next()); }
+                else if (o.code != 1 && o.code != 3) throw std::string("bad op code");
+                c.ops.push_back(o);
+            }
+        }
     }
 }
 
 static vpsc::Dim D(long d) { return d ? vpsc::YDIM : vpsc::XDIM; }
 
+// observer of the sub-constraint cursor protocol (mode seq): a subclass of the real constraint class whose four protocol
+// virtuals log and delegate; reads the protected cursor / flags of its own base.
+struct ObsBase {
+    mutable std::string log;
+    virtual ~ObsBase() {}
+    virtual size_t obsCursor() const = 0;
+    virtual size_t obsN() const = 0;
+    virtual std::string obsFlags() const = 0;
+    void add(const std::string &t) const { if (!log.empty()) log += ','; log += t; }
+};
+template <class B> struct Obs : public B, public ObsBase {
+    template <typename... A> explicit Obs(A&&... a) : B(std::forward<A>(a)...) {}
+    void markAllSubConstraintsAsInactive(void) { add("I"); B::markAllSubConstraintsAsInactive(); }
+    bool subConstraintsRemaining(void) const { bool r = B::subConstraintsRemaining(); add(r ? "R1" : "R0"); return r; }
+    SubConstraintAlternatives getCurrSubConstraintAlternatives(vpsc::Variables vs[])
+    { add("G" + std::to_string(this->_currSubConstraintIndex)); return B::getCurrSubConstraintAlternatives(vs); }
+    void markCurrSubConstraintAsActive(const bool satisfiable)
+    { add("M" + std::to_string(this->_currSubConstraintIndex) + (satisfiable ? ":1" : ":0")); B::markCurrSubConstraintAsActive(satisfiable); }
+    size_t obsCursor() const { return this->_currSubConstraintIndex; }
+    size_t obsN() const { return this->_subConstraintInfo.size(); }
+    std::string obsFlags() const
+    { std::string f; for (size_t i = 0; i < this->_subConstraintInfo.size(); i++) f += (this->_subConstraintInfo[i]->satisfied ? '1' : '0'); return f.empty() ? "-" : f; }
+};
+template <class T, typename... A> static T *mk(bool observe, A&&... a)
+{
+    if (observe) return new Obs<T>(std::forward<A>(a)...);
+    return new T(std::forward<A>(a)...);
+}
+
 // build the compound constraints through the public API.  Returns false if a reference is not an alignment.
-static bool build(const Case &c, vpsc::Rectangles &rs, CompoundConstraints &ccs)
+static bool build(const Case &c, vpsc::Rectangles &rs, CompoundConstraints &ccs, bool observe = false)
 {
     ccs.assign(c.specs.size(), nullptr);
     // alignments first (they are referenced by pointer), keeping list positions
     for (size_t i = 0; i < c.specs.size(); i++) {
         const CCSpec &s = c.specs[i];
         if (s.code == 3) {
-            AlignmentConstraint *ac = new AlignmentConstraint(D(s.a[0]), s.a[1] / 16.0);
+            AlignmentConstraint *ac = mk<AlignmentConstraint>(observe, D(s.a[0]), s.a[1] / 16.0);
             if (s.a[2]) ac->fixPos(s.a[1] / 16.0);
             for (size_t j = 0; j + 1 < s.list.size(); j += 2) ac->addShape(s.list[j], s.list[j + 1] / 16.0);
             ccs[i] = ac;
@@ -112,18 +165,18 @@ static bool build(const Case &c, vpsc::Rectangles &rs, CompoundConstraints &ccs)
     for (size_t i = 0; i < c.specs.size(); i++) {
         const CCSpec &s = c.specs[i];
         switch (s.code) {
-            case 1: ccs[i] = new SeparationConstraint(D(s.a[0]), (unsigned) s.a[1], (unsigned) s.a[2], s.a[3] / 16.0, s.a[4] != 0); break;
+            case 1: ccs[i] = mk<SeparationConstraint>(observe, D(s.a[0]), (unsigned) s.a[1], (unsigned) s.a[2], s.a[3] / 16.0, s.a[4] != 0); break;
             case 2: {
                 if (s.a[1] >= (long) ccs.size() || s.a[2] >= (long) ccs.size()) return false;
                 AlignmentConstraint *l = dynamic_cast<AlignmentConstraint *>(ccs[s.a[1]]);
                 AlignmentConstraint *r = dynamic_cast<AlignmentConstraint *>(ccs[s.a[2]]);
                 if (!l || !r || c.specs[s.a[1]].code != 3 || c.specs[s.a[2]].code != 3) return false;
-                ccs[i] = new SeparationConstraint(D(s.a[0]), l, r, s.a[3] / 16.0, s.a[4] != 0); break; }
+                ccs[i] = mk<SeparationConstraint>(observe, D(s.a[0]), l, r, s.a[3] / 16.0, s.a[4] != 0); break; }
             case 3: break;
-            case 4: { BoundaryConstraint *b = new BoundaryConstraint(D(s.a[0])); b->position = s.a[1] / 16.0;
+            case 4: { BoundaryConstraint *b = mk<BoundaryConstraint>(observe, D(s.a[0])); b->position = s.a[1] / 16.0;
                 for (size_t j = 0; j + 1 < s.list.size(); j += 2) b->addShape(s.list[j], s.list[j + 1] / 16.0);
                 ccs[i] = b; break; }
-            case 5: { DistributionConstraint *d = new DistributionConstraint(D(s.a[0])); d->setSeparation(s.a[1] / 16.0);
+            case 5: { DistributionConstraint *d = mk<DistributionConstraint>(observe, D(s.a[0])); d->setSeparation(s.a[1] / 16.0);
                 for (size_t j = 0; j + 1 < s.list.size(); j += 2) {
                     if (s.list[j] >= (long) ccs.size() || s.list[j + 1] >= (long) ccs.size()) return false;
                     AlignmentConstraint *l = dynamic_cast<AlignmentConstraint *>(ccs[s.list[j]]);
@@ -131,7 +184,7 @@ static bool build(const Case &c, vpsc::Rectangles &rs, CompoundConstraints &ccs)
                     if (!l || !r || c.specs[s.list[j]].code != 3 || c.specs[s.list[j + 1]].code != 3) return false;
                     d->addAlignmentPair(l, r); }
                 ccs[i] = d; break; }
-            case 6: { MultiSeparationConstraint *m = new MultiSeparationConstraint(D(s.a[0]), s.a[1] / 16.0, s.a[2] != 0);
+            case 6: { MultiSeparationConstraint *m = mk<MultiSeparationConstraint>(observe, D(s.a[0]), s.a[1] / 16.0, s.a[2] != 0);
                 for (size_t j = 0; j + 1 < s.list.size(); j += 2) {
                     if (s.list[j] >= (long) ccs.size() || s.list[j + 1] >= (long) ccs.size()) return false;
                     AlignmentConstraint *l = dynamic_cast<AlignmentConstraint *>(ccs[s.list[j]]);
@@ -140,8 +193,8 @@ static bool build(const Case &c, vpsc::Rectangles &rs, CompoundConstraints &ccs)
                     m->addAlignmentPair(l, r); }
                 ccs[i] = m; break; }
             case 7: { std::vector<unsigned> ids; for (size_t j = 0; j < s.list.size(); j++) ids.push_back(s.list[j]);
-                ccs[i] = new FixedRelativeConstraint(rs, ids, s.a[0] != 0); break; }
-            case 8: { PageBoundaryConstraints *p = new PageBoundaryConstraints(s.a[0] / 16.0, s.a[1] / 16.0, s.a[2] / 16.0, s.a[3] / 16.0, s.a[4] / 16.0);
+                ccs[i] = mk<FixedRelativeConstraint>(observe, rs, ids, s.a[0] != 0); break; }
+            case 8: { PageBoundaryConstraints *p = mk<PageBoundaryConstraints>(observe, s.a[0] / 16.0, s.a[1] / 16.0, s.a[2] / 16.0, s.a[3] / 16.0, s.a[4] / 16.0);
                 for (size_t j = 0; j + 2 < s.list.size(); j += 3) p->addShape(s.list[j], s.list[j + 1] / 16.0, s.list[j + 2] / 16.0);
                 ccs[i] = p; break; }
         }
@@ -308,6 +361,103 @@ static void layoutMode(const Case &c)
     for (size_t i = 0; i < rs.size(); i++) delete rs[i];
 }
 
+// mode seq: one set of constraint objects through a sequence of makeFeasible() / run() calls, rectangle moves and fresh layout objects
+static void seqMode(const Case &c)
+{
+    armWatchdog(g_limit);
+    vpsc::Rectangles rs;
+    for (int i = 0; i < c.n; i++) rs.push_back(new vpsc::Rectangle(c.x[i], c.X[i], c.y[i], c.Y[i]));
+    CompoundConstraints ccs;
+    UnsatisfiableConstraintInfos ux, uy;
+    std::ostringstream out;
+    ConstrainedFDLayout *alg = nullptr;
+    int ncalls = 0;
+    bool built = false;
+    try { built = build(c, rs, ccs, true); } catch (...) { built = false; }
+    if (!built) { std::cout << "SKIP\n"; armWatchdog(0); return; }
+    struct Mk { static ConstrainedFDLayout *layout(const Case &c, vpsc::Rectangles &rs, CompoundConstraints &ccs,
+                                                   UnsatisfiableConstraintInfos *ux, UnsatisfiableConstraintInfos *uy) {
+        ConstrainedFDLayout *a = new ConstrainedFDLayout(rs, c.es, c.ideal);
+        a->setConstraints(ccs);
+        if (c.overlap) a->setAvoidNodeOverlaps(true);
+        if (c.neighbour) a->setUseNeighbourStress(true);
+        a->setUnsatisfiableConstraintInfo(ux, uy);
+        return a; } };
+    bool stop = false;
+    for (size_t k = 0; k < c.ops.size() && !stop; k++) {
+        const Case::Op &o = c.ops[k];
+        std::string exc;
+        try {
+            if (o.code == 3 || alg == nullptr) {
+                if (alg) { delete alg; alg = nullptr; }
+                g_phase = "seq-construct";
+                alg = Mk::layout(c, rs, ccs, &ux, &uy);
+                if (o.code == 3) continue;
+            }
+            if (o.code == 4) {
+                for (size_t j = 0; j + 2 < o.mv.size(); j += 3)
+                    if (o.mv[j] >= 0 && o.mv[j] < c.n) rs[o.mv[j]]->moveCentre(o.mv[j + 1] / 16.0, o.mv[j + 2] / 16.0);
+                continue;
+            }
+        } catch (...) { exc = "exception while constructing the layout object"; }
+        // a call under test
+        for (size_t i = 0; i < ux.size(); i++) delete ux[i];
+        for (size_t i = 0; i < uy.size(); i++) delete uy[i];
+        ux.clear(); uy.clear();
+        vector<size_t> cur0(ccs.size(), 0);
+        for (size_t j = 0; j < ccs.size(); j++) {
+            ObsBase *ob = dynamic_cast<ObsBase *>(ccs[j]);
+            if (ob) { ob->log.clear(); cur0[j] = ob->obsCursor(); }
+        }
+        if (exc.empty()) {
+            try {
+                if (o.code == 1) { g_phase = "seq-makeFeasible"; alg->makeFeasible(); }
+                else { g_phase = "seq-run"; alg->run(o.xa, o.ya); }
+            } catch (InvalidVariableIndexException &e) { exc = "InvalidVariableIndexException";
+            } catch (InvalidConstraint &e) { exc = "InvalidConstraint";
+            } catch (vpsc::CriticalFailure &e) { exc = std::string("CriticalFailure ") + e.what();
+            } catch (char *s) { exc = "char* (thrown by vpsc::IncSolver::satisfy)";
+            } catch (std::exception &e) { exc = std::string("std::exception ") + e.what();
+            } catch (...) { exc = "unknown exception"; }
+        }
+        ncalls++;
+        char b[256];
+        out << " CALL " << k << (o.code == 1 ? " M" : " R") << " R";
+        for (int i = 0; i < c.n; i++) {
+            snprintf(b, sizeof b, " %.17g %.17g %.17g %.17g", rs[i]->getCentreX(), rs[i]->getCentreY(), rs[i]->width(), rs[i]->height());
+            out << b;
+        }
+        for (int d = 0; d < 2; d++) {
+            UnsatisfiableConstraintInfos &u = d ? uy : ux;
+            out << (d ? " UY " : " UX ") << u.size();
+            for (size_t i = 0; i < u.size(); i++) {
+                int idx = -1;
+                for (size_t j = 0; j < ccs.size(); j++) if (ccs[j] == u[i]->cc) idx = j;
+                out << " " << idx;
+            }
+        }
+        out << " SUB " << ccs.size();
+        for (size_t j = 0; j < ccs.size(); j++) {
+            ObsBase *ob = dynamic_cast<ObsBase *>(ccs[j]);
+            if (!ob) { out << " ? 0 0 0 - -"; continue; }
+            out << " " << (ccs[j]->shouldCombineSubConstraints() ? 1 : 0) << " " << ob->obsN() << " " << cur0[j] << " " << ob->obsCursor()
+                << " " << ob->obsFlags() << " " << (ob->log.empty() ? "-" : ob->log);
+        }
+        if (!exc.empty()) {
+            for (size_t i = 0; i < exc.size(); i++) if (exc[i] == '\n' || exc[i] == ' ') exc[i] = '_';
+            out << " EXC " << exc;
+            stop = true;
+        }
+    }
+    armWatchdog(0);
+    std::cout << "SEQ " << ncalls << out.str() << "\n";
+    if (alg) delete alg;
+    for (size_t i = 0; i < ux.size(); i++) delete ux[i];
+    for (size_t i = 0; i < uy.size(); i++) delete uy[i];
+    for (size_t i = 0; i < ccs.size(); i++) delete ccs[i];
+    for (size_t i = 0; i < rs.size(); i++) delete rs[i];
+}
+
 int main(int argc, char **argv)
 {
     std::string mode = argc > 1 ? argv[1] : "gen";
@@ -322,7 +472,7 @@ int main(int argc, char **argv)
         while (is >> v) tk.t.push_back(v);
         Case c;
         try { parseCase(tk, c); } catch (std::string &s) { std::cout << "BADINPUT " << s << "\n"; if (mode == "gen") std::cout << "BADINPUT\n"; continue; }
-        if (mode == "gen") genMode(c); else layoutMode(c);
+        if (mode == "gen") genMode(c); else if (mode == "seq") seqMode(c); else layoutMode(c);
         std::cout.flush();
     }
     return 0;
